@@ -109,6 +109,7 @@ def run(ctx, build, verdict, ev):
                 eng.input_variables[i].value = x
                 ops_lit.append(f"(OSet {i} {vlib.fhex(x)})")
             elif kind == "process":
+                fll_before = str(eng)
                 with vlib.patch_observed():
                     vlib.RECORDER.reset()
                     try:
@@ -118,6 +119,10 @@ def run(ctx, build, verdict, ev):
                         raised = ex
                     tbl_all += vlib.RECORDER.take()
                 ops_lit.append("OProcess")
+                if str(eng) != fll_before:
+                    verdict.add_violation("history:process-changes-configuration", "Engine.process() changed the engine's configuration (its FuzzyLite Language text differs before and after)",
+                                          {"engine_fll": fll_before, "after": str(eng), "inputs": [last(iv.value) for iv in eng.input_variables]})
+                    nviol += 1
                 if raised is None:
                     nviol += check_after_process(ctx, verdict, fl, eng, d, with_refs and cur == 0, stats)
                     if any(bool(np.asarray(r.triggered).any()) for rb in eng.rule_blocks for r in rb.rules):
